@@ -134,7 +134,7 @@ func c06Helper(h int, line string, ascii bool, pos protocol.Position) {
 	case 10:
 		tok := parser.Token{Type: parser.TokenComment, Value: line,
 			Pos: parser.Position{Line: zzverif.Int("tl", 1, 1<<31), Column: zzverif.Int("tc", 1, 1<<31)}}
-		_ = extractTagTokensFromComment(tok)
+		_ = extractTagTokensFromComment(tok, uint32(tok.Pos.Column-1))
 	case 11:
 		if ascii {
 			// the engine's strings.ToLower model covers ASCII and concrete non-ASCII only
